@@ -23,7 +23,8 @@ import numpy as np
 import common
 from common import Check, main_wrapper
 
-PROFILES = ["conv", "elementwise", "memory", "cascade", "mixed", "cpu", "approx", "cascade", "weights", "mixed", "softmax", "inplace"]
+PROFILES = ["conv", "elementwise", "memory", "cascade", "mixed", "cpu", "approx", "cascade", "weights", "mixed", "softmax", "inplace",
+            "shared"]
 
 
 # ------------------------------------------------------------------------------------------------
@@ -67,6 +68,29 @@ def add_softmax(b, rng, x, beta=None):
     b.net.ops.append(netgen.Op("SOFTMAX", [x], [o], ("SoftmaxOptions", dict(Beta=float(beta)))))
     b.net.desc.append(f"softmax(beta={beta})")
     return o
+
+
+def reshape_like(b, rng, t):
+    """a RESHAPE-like operator behind `t` (rank 4): Vela bypasses memory-only operators, so the producer's lowering then sees the
+    reshaped tensor; returns the new tensor (rank 4 or 2)"""
+    import netgen
+
+    tt = b.t(t)
+    n, hh, ww, cc = tt.shape
+    style = rng.choice(["flat", "hw1c", "1hwc", "whc", "squeeze"])
+    b.net.desc.append("then_reshape:" + style)
+    if style == "flat":
+        return b.reshape(t, [1, hh * ww * cc])
+    if style == "hw1c":
+        return b.reshape(t, [1, hh * ww, 1, cc])
+    if style == "1hwc":
+        return b.reshape(t, [1, 1, hh * ww, cc])
+    if style == "whc" or not (hh == 1 or ww == 1):
+        return b.reshape(t, [1, ww, hh, cc])
+    ax = 1 if hh == 1 else 2
+    sq = b.fm([d for i, d in enumerate(tt.shape) if i != ax], tt.dtype, scale=tt.scales[0], zp=tt.zps[0])
+    b.net.ops.append(netgen.Op("SQUEEZE", [t], [sq], ("SqueezeOptions", dict(SqueezeDims=[ax]))))
+    return b.reshape(sq, [1, hh * ww * cc])
 
 
 def gen_softmax(rng, idx):
@@ -148,9 +172,106 @@ def gen_inplace(rng, idx):
     return b.finish(outs)
 
 
+def gen_shared(rng, idx):
+    """Several operators that share ONE weight tensor and / or ONE bias tensor of the file but differ in what the compiler does
+    with it: stride (a 2x2 stride-2 VALID convolution on an IFM of depth <= 4 that is the first operator is re-laid by
+    fixup_strided_conv), dilation (> 2: fixup_dilation_gt2), IFM / OFM scales, bias, convolution vs transposed convolution,
+    depthwise convolutions. The compressed-weight cache is keyed by the tensor's value id: a rewrite that changes the values
+    without refreshing the id hands one operator the other's weights (round-4 seeded change C08-m1 = C07-m1)."""
+    import netgen
+
+    dtype = rng.choice(["int8"] * 6 + ["uint8"] * 3 + ["int16"] * 1)
+    b = make_builder(rng, f"c01_shared_{idx}", dtype)
+    c = rng.choice([1, 2, 3, 4, 4, 4, 8, 16])
+    h, w = rng.choice([4, 6, 8, 9, 10]), rng.choice([4, 6, 8, 9, 10])
+    x = b.input([1, h, w, c])
+    b.net.desc.append(f"profile=shared dtype={dtype} in={[1, h, w, c]}")
+    outs = []
+
+    def conv_with(t, wt, bt, k, stride, dilation, padding, act=0):
+        tt = b.t(t)
+        oc = b.t(wt).shape[0]
+        oh, ow = b._out_hw(tt.shape[1], tt.shape[2], k[0], k[1], stride[0], stride[1], dilation[0], dilation[1], padding)
+        if oh < 1 or ow < 1:
+            return None
+        y = b.fm([1, oh, ow, oc], dtype)
+        b.net.ops.append(netgen.Op("CONV_2D", [t, wt] + ([bt] if bt is not None else []), [y], ("Conv2DOptions", dict(
+            Padding=0 if padding == "SAME" else 1, StrideW=stride[1], StrideH=stride[0],
+            DilationWFactor=dilation[1], DilationHFactor=dilation[0], FusedActivationFunction=act))))
+        return y
+
+    if rng.random() < 0.2:
+        # depthwise convolutions sharing weights and bias
+        k = rng.choice([(3, 3), (2, 2), (1, 3)])
+        y0 = b.dwconv(x, k, (1, 1), (1, 1), "SAME", act=0)
+        first = b.net.ops[-1]
+        wt, bt = first.inputs[1], first.inputs[2]
+        outs.append(y0)
+        for _ in range(rng.randint(1, 2)):
+            src = rng.choice([x, b.unary("RELU", x), b.pool(x, "MAX_POOL_2D", (2, 2), (1, 1), "SAME")])
+            st = rng.choice([(1, 1), (2, 2), (1, 1)])
+            dl = rng.choice([(1, 1), (2, 2), (3, 3)]) if st == (1, 1) else (1, 1)
+            tt = b.t(src)
+            oh, ow = b._out_hw(tt.shape[1], tt.shape[2], k[0], k[1], st[0], st[1], dl[0], dl[1], "SAME")
+            y = b.fm([1, oh, ow, c], dtype)
+            b.net.ops.append(netgen.Op("DEPTHWISE_CONV_2D", [src, wt, bt], [y], ("DepthwiseConv2DOptions", dict(
+                Padding=0, StrideW=st[1], StrideH=st[0], DepthMultiplier=1, DilationWFactor=dl[1], DilationHFactor=dl[0],
+                FusedActivationFunction=0))))
+            outs.append(y)
+        b.net.desc.append("depthwise")
+        return b.finish(outs)
+    oc = rng.choice([2, 4, 8, 16])
+    k = rng.choice([(2, 2), (2, 2), (3, 3), (1, 1), (2, 3)])
+    first_kind = rng.choice(["strided_first", "strided_first", "plain"])
+    if first_kind == "strided_first":
+        y0 = b.conv(x, oc, k, (2, 2), (1, 1), "VALID", act=0)
+    else:
+        y0 = b.conv(x, oc, k, (1, 1), (1, 1), rng.choice(["SAME", "VALID"]), act=rng.choice([0, 1]))
+    if y0 is None:
+        y0 = b.conv(x, oc, (1, 1), (1, 1), (1, 1), "SAME", act=0)
+        k = (1, 1)
+    first = b.net.ops[-1]
+    wt, bt = first.inputs[1], first.inputs[2]
+    outs.append(y0)
+    for _ in range(rng.randint(1, 3)):
+        kind = rng.choice(["stride", "dilation", "other_input", "new_bias", "tconv", "shared_bias_only"])
+        b.net.desc.append(kind)
+        new = None
+        if kind == "stride":
+            new = conv_with(x, wt, bt, k, rng.choice([(1, 1), (2, 2), (3, 3), (1, 2)]), (1, 1), rng.choice(["SAME", "VALID"]))
+        elif kind == "dilation":
+            new = conv_with(x, wt, bt, k, (1, 1), rng.choice([(2, 2), (3, 3), (4, 4), (3, 1)]), "SAME", act=rng.choice([0, 1]))
+        elif kind == "other_input":
+            src = rng.choice([b.unary("RELU", x), b.pool(x, "MAX_POOL_2D", (2, 2), (1, 1), "SAME"), b.quantize(x)])
+            new = conv_with(src, wt, bt, k, rng.choice([(1, 1), (2, 2)]), (1, 1), rng.choice(["SAME", "VALID"]))
+        elif kind == "new_bias":
+            br = np.random.RandomState(rng.getrandbits(32))
+            bt2 = b.const([oc], b.t(bt).dtype, br.randint(-2000, 2000, oc), list(b.t(bt).scales), [0] * len(b.t(bt).scales), 0, b.fresh("b"))
+            new = conv_with(x, wt, bt2, k, rng.choice([(1, 1), (2, 2)]), (1, 1), rng.choice(["SAME", "VALID"]))
+        elif kind == "tconv" and dtype != "int16" and len(b.t(wt).scales) == 1 and h * w <= 64:
+            st = (2, 2)
+            oh, ow = h * 2, w * 2
+            os_ = b.const([4], "int32", [1, oh, ow, oc], name=b.fresh("oshape"))
+            new = b.fm([1, oh, ow, oc], dtype)
+            b.net.ops.append(netgen.Op("TRANSPOSE_CONV", [os_, wt, x, bt], [new], ("TransposeConvOptions", dict(
+                Padding=0, StrideW=st[1], StrideH=st[0]))))
+        elif kind == "shared_bias_only":
+            y2 = b.conv(x, oc, rng.choice([(1, 1), (3, 3)]), (1, 1), (1, 1), "SAME", act=0, per_channel=len(b.t(wt).scales) > 1)
+            if y2 is not None:
+                op2 = b.net.ops[-1]
+                if len(b.t(op2.inputs[1]).scales) == len(b.t(wt).scales):
+                    op2.inputs[2] = bt
+                new = y2
+        if new is not None:
+            outs.append(new)
+    return b.finish(outs)
+
+
 def gen_net(rng, idx, profile):
     import netgen
 
+    if profile == "shared":
+        return gen_shared(rng, idx)
     if profile == "softmax":
         return gen_softmax(rng, idx)
     if profile == "inplace":
@@ -199,7 +320,7 @@ def gen_net(rng, idx, profile):
         if kind == "conv":
             k = rng.choice([(1, 1), (3, 3), (3, 3), (5, 5), (2, 2), (1, 3), (3, 1), (2, 3)])
             s = rng.choice([(1, 1), (1, 1), (2, 2), (3, 3), (1, 2), (2, 1)])
-            d = rng.choice([(1, 1), (1, 1), (1, 1), (2, 2)]) if s == (1, 1) else (1, 1)
+            d = rng.choice([(1, 1)] * 6 + [(2, 2)] * 2 + [(3, 3)]) if s == (1, 1) else (1, 1)      # > 2: fixup_dilation_gt2
             oc = rng.choice([1, 3, 4, 8, 16, 17]) if profile != "weights" else rng.choice([32, 48, 64])
             new = b.conv(cur, oc, k, s, d, pick_padding(rng, k, s), act=rng.choice([0, 0, 1, 3, 2]))
         elif kind == "conv_cpu":      # stride 4 is outside what the NPU supports: stays on the CPU
@@ -318,6 +439,8 @@ def gen_net(rng, idx, profile):
             new = b.concat([cur, other] if rng.random() < 0.5 else [other, cur, other], axis)
             if rng.random() < 0.75:
                 _same_quant(b, new, cur)        # otherwise the inputs are requantised (approximated class)
+            if axis == 0:
+                stop = True                     # batch 2 from here on: nothing else accepts it
         elif kind == "split_concat" and cc % 2 == 0:
             o1, o2 = b.split(cur, 2, 3)
             o1 = b.unary("RELU", o1)
@@ -391,6 +514,10 @@ def gen_net(rng, idx, profile):
         if last.kind == "LEAKY_RELU" and dtype == "int16":
             # int16 LEAKY_RELU with differing scales is lowered to MUL/MUL/MAX; a RESHAPE behind it goes wrong (open finding)
             avoid = {"fc_end", "reshape_back", "squeeze_expand"}
+        elif not stop and len(b.t(cur).shape) == 4 and b.t(cur).shape[0] == 1 and rng.random() < 0.08:
+            # operator -> RESHAPE-like: the memory-only operator is bypassed before the producer is lowered
+            cur = reshape_like(b, rng, cur)
+            live.append(cur)
     if profile == "approx" and len(b.t(cur).shape) == 4:
         # the approximated operator comes last so that its error is not amplified
         which = rng.choice(["avgpool_same", "avgpool_same", "logistic", "tanh", "resize", "resize", "mean", "mean", "exp", "softmax", "argmax"])
@@ -434,6 +561,8 @@ def gen_net(rng, idx, profile):
             new = b.unary("LOGISTIC" if which == "logistic" else "TANH", cur)
         if new is not None:
             cur = new
+            if len(b.t(cur).shape) == 4 and b.t(cur).shape[0] == 1 and rng.random() < 0.3:
+                cur = reshape_like(b, rng, cur)
     outs = [cur] if unpacked is None or cur != unpacked[0] else list(unpacked)
     if len(live) > 2 and rng.random() < 0.2:
         extra = rng.choice(live[1:-1])
@@ -450,6 +579,60 @@ def corpus_net(rng, name):
     ones, a deterministic witness for the open one (known_lrelu16_reshape)"""
     import netgen
 
+    if name in ("known_resize_reshape", "known_mean_reshape", "known_widepool_reshape"):
+        b = make_builder(rng, name, "int8")
+        if name == "known_resize_reshape":
+            x = b.input([1, 4, 4, 4], scale=0.05, zp=3)
+            y = b.resize(x, 2, "RESIZE_BILINEAR", False, False)
+            z = b.reshape(y, [1, 256])
+        elif name == "known_mean_reshape":
+            x = b.input([1, 8, 8, 4], scale=0.05, zp=3)
+            ax = b.const([2], "int32", [1, 2], name=b.fresh("axes"))
+            y = b.fm([1, 4], "int8", scale=0.04, zp=-2)
+            b.net.ops.append(netgen.Op("MEAN", [x, ax], [y], ("ReducerOptions", dict(KeepDims=False))))
+            z = b.reshape(y, [4, 1])
+        else:
+            x = b.input([1, 8, 12, 4], scale=0.05, zp=3)
+            y = b.pool(x, "AVERAGE_POOL_2D", (2, 2), (1, 4), "VALID")
+            z = b.reshape(y, [1, 84])
+        return b.finish([z])
+    if name == "known_prelu_reshape":
+        b = make_builder(rng, name, "int8")
+        x = b.input([1, 3, 4, 6], scale=0.05, zp=3)
+        al = b.const([1, 1, 6], "int8", [-20, -3, 5, 12, 30, 64], [0.02], [0])
+        y = b.fm([1, 3, 4, 6], "int8", scale=0.06, zp=-5)
+        b.net.ops.append(netgen.Op("PRELU", [x, al], [y], None))
+        return b.finish([b.reshape(y, [1, 12, 1, 6])])
+    if name in ("known_transpose_relu", "known_sqdiff_reshape", "known_dilation3_uint8", "known_shared_dilation3", "known_shared_tconv"):
+        dt = "uint8" if name in ("known_dilation3_uint8", "known_shared_tconv") else "int8"
+        b = make_builder(rng, name, dt)
+        if name == "known_transpose_relu":
+            x = b.input([1, 3, 3, 17], scale=0.05, zp=3)
+            pt = b.const([4], "int32", [0, 2, 1, 3], name=b.fresh("perm"))
+            t_ = b.fm([1, 3, 3, 17], "int8", scale=0.05, zp=3)
+            b.net.ops.append(netgen.Op("TRANSPOSE", [x, pt], [t_], ("TransposeOptions", {})))
+            return b.finish([b.unary("RELU6", t_)])
+        if name == "known_sqdiff_reshape":
+            x = b.input([1, 3, 3, 5], scale=0.05, zp=3)
+            x2 = b.input([1, 3, 3, 5], scale=0.04, zp=-4)
+            y = b.fm([1, 3, 3, 5], "int8", scale=0.5, zp=-20)
+            b.net.ops.append(netgen.Op("SQUARED_DIFFERENCE", [x, x2], [y], ("SquaredDifferenceOptions", {})))
+            return b.finish([b.reshape(y, [1, 45])])
+        x = b.input([1, 8, 8, 3], scale=0.05, zp=120 if dt == "uint8" else 3)
+        if name == "known_dilation3_uint8":
+            return b.finish([b.conv(x, 4, (3, 3), (1, 1), (3, 3), "SAME", act=0, per_channel=False)])
+        y0 = b.conv(x, 4, (3, 3), (1, 1), (1, 1), "SAME", act=0, per_channel=False)
+        f = b.net.ops[-1]
+        if name == "known_shared_dilation3":
+            y1 = b.fm([1, 8, 8, 4], dt)
+            b.net.ops.append(netgen.Op("CONV_2D", [x, f.inputs[1], f.inputs[2]], [y1], ("Conv2DOptions", dict(
+                Padding=0, StrideW=1, StrideH=1, DilationWFactor=3, DilationHFactor=3, FusedActivationFunction=0))))
+        else:
+            os_ = b.const([4], "int32", [1, 16, 16, 4], name=b.fresh("oshape"))
+            y1 = b.fm([1, 16, 16, 4], dt)
+            b.net.ops.append(netgen.Op("TRANSPOSE_CONV", [os_, f.inputs[1], x, f.inputs[2]], [y1], ("TransposeConvOptions", dict(
+                Padding=0, StrideW=2, StrideH=2))))
+        return b.finish([y0, y1])
     if name == "known_concat_batch_axis":
         b = make_builder(rng, name, "int8")
         x = b.input([1, 3, 3, 5], scale=0.05, zp=3)
@@ -581,6 +764,8 @@ def _worker(job):
         data = netgen.serialize(net)
         out.update(desc=net.describe(), opts=opts, src_ops=[o.kind for o in net.ops], dtype=net.tensors[net.inputs[0]].dtype,
                    src_inputs=list(net.inputs),
+                   src_dil=[max(int((o.opts[1] if o.opts else {}).get("DilationWFactor", 1)), int((o.opts[1] if o.opts else {}).get("DilationHFactor", 1)))
+                            for o in net.ops],
                    src_tinfo=[(list(t.shape), t.dtype, [float(x) for x in (t.scales or [])], [int(z) for z in (t.zps or [])],
                                [int(v) for v in np.asarray(t.data).reshape(-1)] if t.data is not None and t.dtype == "int32" and np.asarray(t.data).size <= 8 else None)
                               for t in net.tensors],
@@ -663,11 +848,77 @@ def ofm_batch_above_one(o):
     return False
 
 
+def lowered_then_reshaped(o):
+    """kind of a source operator with its own lowering (MEAN, RESIZE_*, AVERAGE_POOL_2D with a stride above 3) whose output is
+    consumed by a memory-only operator, or None"""
+    g = o.get("src_graph") or []
+    consumers = {}
+    for kind, ins, outs, faf, pad, stride in g:
+        for t in ins:
+            consumers.setdefault(t, []).append(kind)
+    for kind, ins, outs, faf, pad, stride in g:
+        if any(c in MEMORY_ONLY for c in consumers.get(outs[0], [])):
+            if kind == "MEAN":
+                return "mean"
+            if kind == "SQUARED_DIFFERENCE":
+                return "squared-difference"
+            if kind == "PRELU":
+                return "prelu"
+            if kind in ("RESIZE_BILINEAR", "RESIZE_NEAREST_NEIGHBOR"):
+                return "resize"
+            if kind == "AVERAGE_POOL_2D" and stride > 3:
+                return "wide-stride-avgpool"
+    return None
+
+
+def weights_findings(o):
+    """open findings about weights, by the structure of the source network: operators sharing one weight tensor of the file
+    (convolution + transposed convolution; one of them with a dilation above 2), a uint8 convolution with a dilation above 2"""
+    g = o.get("src_graph") or []
+    dil = o.get("src_dil") or [1] * len(g)
+    users = {}
+    for k, (kind, ins, outs, faf, pad, stride) in enumerate(g):
+        if kind in ("CONV_2D", "DEPTHWISE_CONV_2D"):
+            users.setdefault(ins[1], []).append((kind, dil[k]))
+        elif kind == "TRANSPOSE_CONV":
+            users.setdefault(ins[1], []).append((kind, 1))
+    for us in users.values():
+        kinds = {k_ for k_, _ in us}
+        if "TRANSPOSE_CONV" in kinds and len(kinds) > 1:
+            return "shared-weights-of-conv-and-transpose-conv-share-one-encoded-stream"
+    for us in users.values():
+        if len(us) > 1 and any(d > 2 for _, d in us) and len({d for _, d in us}) > 1:
+            return "shared-weights-dilation-above-two-keeps-value-id"
+    if o.get("dtype") == "uint8" and any(d > 2 for d in dil):
+        return "dilation-above-two-kernel-filled-with-raw-zeros"
+    return None
+
+
+def transpose_then_activation(o):
+    g = o.get("src_graph") or []
+    consumers = {}
+    for kind, ins, outs, faf, pad, stride in g:
+        for t in ins:
+            consumers.setdefault(t, []).append(kind)
+    return any(kind == "TRANSPOSE" and any(c in ("RELU", "RELU6", "RELU_N1_TO_1") for c in consumers.get(outs[0], []))
+               for kind, ins, outs, faf, pad, stride in g)
+
+
 def classify_failure(o, ans):
     """stable key of an open known finding (see known_findings.txt), or None. Only the structure of the source network
     is consulted; the verdict itself is Lean's."""
     if ans.endswith("verdict=fail") and mean_over_unit_axes(o):
         return "mean-over-unit-axes-drops-requantisation"
+    if ans.endswith("verdict=fail") and transpose_then_activation(o):
+        return "transpose-then-packed-activation-loses-transposition"
+    if ans.endswith("verdict=fail") or ans.startswith("err:out:"):
+        k = weights_findings(o)
+        if k is not None:
+            return k
+    if ans.endswith("verdict=fail") or ans.startswith("err:out:"):
+        k = lowered_then_reshaped(o)
+        if k is not None:
+            return k + "-then-reshape-lowered-with-reshaped-ofm-shape"
     if ans.endswith("verdict=fail") and ofm_batch_above_one(o):
         return "ofm-batch-above-one-accepted-on-npu"
     if not (ans.endswith("verdict=fail") or "read_outside_region" in ans) or o.get("dtype") != "int16":
@@ -703,7 +954,10 @@ def main():
     jobs = [(0, 0, "known_" + nm, k_inputs) for nm in ("slice_relu", "fused_act_relu", "pad_conv_reshape", "quantize_relu", "reshape_relu",
                                                               "slice_window", "lut_reshape", "cascade_stale_row", "pad_avgpool_act", "slice_of_slice", "slice_strided_conv", "fc_int16",
                                                               "slice_strided_pool", "pad_concat", "pad_strided_dw", "lrelu16_relu6", "lrelu16_reshape",
-                                                              "mean_unit_axes", "concat_batch_axis")]
+                                                              "mean_unit_axes", "concat_batch_axis",
+                                                              "resize_reshape", "mean_reshape", "widepool_reshape",
+                                                              "transpose_relu", "sqdiff_reshape", "dilation3_uint8", "shared_dilation3", "shared_tconv",
+                                                              "prelu_reshape")]
     jobs += [(ck.seed, i, PROFILES[i % len(PROFILES)], k_inputs) for i in range(n)]
     ctx = multiprocessing.get_context("fork")
     with ProcessPoolExecutor(min(16, os.cpu_count() or 4), mp_context=ctx) as ex:
